@@ -186,6 +186,39 @@ func c09Clique(p vbase.Params, r *vbase.Result, async bool) {
 				items = append(items, voteItem{From: id, Kind: "stale-block", PC: pc})
 			}
 		}
+		// bls12: one puppet may have presented a well-formed proof-of-possession that does not belong to its key (a copy of
+		// another replica's): its key is not accepted, so its votes - genuine signatures of that key - are not valid votes,
+		// however often and by whomever they are sent
+		var noPop hotstuff.ID
+		if scheme == crypto.NameBLS12 && nn >= 4 && rng.Chance(1, 3) {
+			noPop = hotstuff.ID(rng.Range(3, nn))
+			other := hotstuff.ID(3 + (int(noPop)-3+1)%(nn-2))
+			for _, at := range []hotstuff.ID{1, 2} {
+				c.W.M(at).Cfg.AddReplica(&hotstuff.ReplicaInfo{ID: noPop, PubKey: c.W.Keys[noPop].Public(), Metadata: map[string]string{"bls12-pop-bin": c.W.PopOf(other)}})
+			}
+			var kept []voteItem
+			for _, it := range items {
+				has := false
+				var rest []hotstuff.ID
+				for _, id := range it.Real {
+					if id == noPop {
+						has = true
+					} else {
+						rest = append(rest, id)
+					}
+				}
+				if has {
+					it.Kind += "+signer-without-valid-pop"
+					it.Real = rest
+					it.Plain = false
+					kept = append(kept, it, it) // sent twice
+				} else {
+					kept = append(kept, it)
+				}
+			}
+			items = kept
+			r.Obs("cases_with_a_replica_without_valid_pop", 1)
+		}
 		// arrival order; the proposal itself arrives at a random position (or first)
 		order := rng.Perm(len(items))
 		propAt := 0
